@@ -154,3 +154,278 @@ theorem parts_of_shape {items : List Item} {e : Re} (hacc : accepts (.parts item
   | ok l => exact ⟨l, rfl, matchParts_resOk cs items cs l (fun p hp => hp) hmp⟩
 
 end NitroVerif.Shape
+
+namespace NitroVerif.Shape
+open NitroVerif.Peg NitroVerif.Gen NitroVerif.Gen.Parts NitroVerif.Build
+
+/-! ### acceptance of the sites of value.rs / base.rs / directives.rs, evaluated by the kernel -/
+
+theorem acc_Value : accepts (.onlyChild OC_Value) (ruleShape gList R.Value) = true := by decide +kernel
+theorem acc_Variable : accepts (.onlyChild OC_Variable) (ruleShape gList R.Variable) = true := by decide +kernel
+theorem acc_BooleanValue : accepts (.onlyChild OC_BooleanValue) (ruleShape gList R.BooleanValue) = true := by decide +kernel
+theorem acc_ListValue : accepts (.allChildren AC_ListValue) (ruleShape gList R.ListValue) = true := by decide +kernel
+theorem acc_ObjectValue : accepts (.allChildren AC_ObjectValue) (ruleShape gList R.ObjectValue) = true := by decide +kernel
+theorem acc_ObjectField : accepts (.parts P_ObjectField) (ruleShape gList R.ObjectField) = true := by decide +kernel
+theorem acc_StringValue : accepts (.onlyChild OC_StringValue) (ruleShape gList R.StringValue) = true := by decide +kernel
+theorem acc_NormalStringValue : accepts (.allChildren AC_NormalStringValue) (ruleShape gList R.NormalStringValue) = true := by
+  decide +kernel
+theorem acc_StringCharacter : accepts (.onlyChild OC_StringCharacter) (ruleShape gList R.StringCharacter) = true := by
+  decide +kernel
+theorem acc_EscapedUnicodeBrace :
+    accepts (.onlyChild OC_EscapedUnicodeBrace) (ruleShape gList R.EscapedUnicodeBrace) = true := by decide +kernel
+theorem acc_Arguments : accepts (.allChildren AC_Arguments) (ruleShape gList R.Arguments) = true := by decide +kernel
+theorem acc_Argument : accepts (.parts P_Argument) (ruleShape gList R.Argument) = true := by decide +kernel
+theorem acc_Directives : accepts (.allChildren AC_Directives) (ruleShape gList R.Directives) = true := by decide +kernel
+theorem acc_Directive : accepts (.parts P_Directive) (ruleShape gList R.Directive) = true := by decide +kernel
+
+theorem deep_parts {p : Pair} (hd : DeepOk gList p) :
+    Mem (ruleShape gList p.rule) (p.children.map Pair.rule) ∧ ∀ c ∈ p.children, DeepOk gList c := by
+  cases hd with
+  | mk h1 h2 => exact ⟨h1, h2⟩
+
+/-- `only_child()` + dispatch on a pair whose rule has an accepted `onlyChild` site -/
+theorem onlyChildOf_of_shape {allowed : List RuleId} (site : String) {p : Pair}
+    (hacc : accepts (.onlyChild allowed) (ruleShape gList p.rule) = true) (hd : DeepOk gList p) :
+    ∃ c, (allowed = [] ∨ c.rule ∈ allowed) ∧ DeepOk gList c ∧ onlyChildOf allowed site p = .ok c := by
+  obtain ⟨hm, hcs⟩ := deep_parts hd
+  obtain ⟨c, hc, ha⟩ := only_child_of_shape hacc hm
+  refine ⟨c, ha, hcs c (by simp [hc]), ?_⟩
+  simp [onlyChildOf, onlyChild, hc, ha, bind, Except.bind]
+
+theorem allChildren_of_shape {r : RuleId} {p : Pair}
+    (hacc : accepts (.allChildren r) (ruleShape gList p.rule) = true) (hd : DeepOk gList p) :
+    allChildren r p = .ok p.children ∧ ∀ c ∈ p.children, c.rule = r ∧ DeepOk gList c := by
+  obtain ⟨hm, hcs⟩ := deep_parts hd
+  have h := all_children_of_shape hacc hm
+  exact ⟨allChildren_ok h, fun c hc => ⟨h c hc, hcs c hc⟩⟩
+
+/-! ### strings -/
+
+theorem hexDigits_cases (digits : List Char) :
+    (∃ n, hexDigitsU32 digits = .ok n) ∨ hexDigitsU32 digits = .error .hexParse := by
+  unfold hexDigitsU32
+  by_cases h : digits.isEmpty = true
+  · simp [h]
+  · simp only [h]
+    cases hexFold digits 0 with
+    | none => simp
+    | some n => by_cases hn : n < 4294967296 <;> simp [hn]
+
+theorem parseHex_cases (s : List Char) : (∃ n, parseHexU32 s = .ok n) ∨ parseHexU32 s = .error .hexParse := by
+  unfold parseHexU32
+  exact hexDigits_cases _
+
+theorem safe_parseHex (s : List Char) : Safe (parseHexU32 s) := by
+  intro e h
+  rcases parseHex_cases s with ⟨n, hn⟩ | hn
+  · rw [hn] at h; cases h
+  · rw [hn] at h; cases h; trivial
+
+theorem safe_charFromU32 (n : Nat) : Safe (charFromU32 n) := by
+  intro e h
+  unfold charFromU32 at h
+  split at h
+  · cases h
+  · cases h; trivial
+
+theorem safe_escapedChar (s : List Char) : Safe (escapedChar s) := by
+  intro e h
+  unfold escapedChar at h
+  repeat' split at h
+  all_goals first
+    | (cases h; trivial)
+    | cases h
+
+theorem safe_decodeChar (ctx : Ctx) (sc : Pair) (hd : DeepOk gList sc) (hr : sc.rule = R.StringCharacter) :
+    Safe (decodeChar ctx sc) := by
+  obtain ⟨ch, hch, hdch, hoc⟩ := onlyChildOf_of_shape "StringCharacter" (hr ▸ acc_StringCharacter) hd
+  unfold decodeChar
+  rw [hoc]
+  simp only [bind, Except.bind]
+  split
+  · rename_i h1
+    obtain ⟨d, _, _, hod⟩ := onlyChildOf_of_shape "EscapedUnicodeBrace" (h1 ▸ acc_EscapedUnicodeBrace) hdch
+    rw [hod]
+    exact Safe.bind (safe_parseHex _) fun n _ => safe_charFromU32 n
+  · split
+    · split
+      · exact Safe.err trivial
+      · exact Safe.bind (safe_parseHex _) fun n _ => safe_charFromU32 n
+    · split
+      · exact safe_escapedChar _
+      · split
+        · split
+          · exact Safe.ok _
+          · exact Safe.err trivial
+        · rename_i h1 h2 h3 h4
+          have : ch.rule ∈ OC_StringCharacter := by
+            rcases hch with h | h
+            · simp [OC_StringCharacter] at h
+            · exact h
+          simp [OC_StringCharacter, h1, h2, h3, h4] at this
+
+theorem safe_stringValueChars (ctx : Ctx) (p : Pair) (hd : DeepOk gList p) (hr : p.rule = R.StringValue) :
+    Safe (stringValueChars ctx p) := by
+  obtain ⟨c, hc, hdc, hoc⟩ := onlyChildOf_of_shape "StringValue" (hr ▸ acc_StringValue) hd
+  unfold stringValueChars
+  rw [hoc]
+  simp only [bind, Except.bind]
+  split
+  · exact Safe.ok _
+  · split
+    · split
+      · exact Safe.err trivial
+      · exact Safe.ok _
+    · split
+      · rename_i h1 h2 h3
+        obtain ⟨_, hall⟩ := allChildren_of_shape (h3 ▸ acc_NormalStringValue) hdc
+        refine Safe.bind (Safe.mapM fun sc hsc => ?_) fun cs _ => Safe.ok _
+        exact safe_decodeChar ctx sc (hall sc hsc).2 (hall sc hsc).1
+      · rename_i h1 h2 h3
+        have : c.rule ∈ OC_StringValue := by
+          rcases hc with h | h
+          · simp [OC_StringValue] at h
+          · exact h
+        simp [OC_StringValue, h1, h2, h3] at this
+
+theorem safe_buildStringValue (ctx : Ctx) (p : Pair) (hd : DeepOk gList p) (hr : p.rule = R.StringValue) :
+    Safe (buildStringValue ctx p) := by
+  unfold buildStringValue
+  exact Safe.bind (safe_stringValueChars ctx p hd hr) fun ⟨cs, pos⟩ _ => Safe.ok _
+
+theorem safe_buildVariable (ctx : Ctx) (p : Pair) (hd : DeepOk gList p) (hr : p.rule = R.Variable) :
+    Safe (buildVariable ctx p) := by
+  obtain ⟨c, _, _, hoc⟩ := onlyChildOf_of_shape "Variable" (hr ▸ acc_Variable) hd
+  unfold buildVariable
+  rw [hoc]
+  exact Safe.ok _
+
+end NitroVerif.Shape
+
+namespace NitroVerif.Shape
+open NitroVerif.Peg NitroVerif.Gen NitroVerif.Gen.Parts NitroVerif.Build
+
+theorem resOk_req_req {a b : RuleId} {l : List (Option Pair)} {cs : List Pair} (h : ResOk [.req a, .req b] l cs) :
+    ∃ p q, l = [some p, some q] ∧ p.rule = a ∧ q.rule = b ∧ p ∈ cs ∧ q ∈ cs := by
+  rcases l with _ | ⟨o1, _ | ⟨o2, _ | ⟨o3, l⟩⟩⟩
+  · simp [ResOk] at h
+  · cases o1 <;> simp [ResOk] at h
+  · cases o1 <;> cases o2 <;> simp [ResOk] at h
+    rename_i p q
+    exact ⟨p, q, rfl, h.1, h.2.2.1, h.2.1, h.2.2.2⟩
+  · cases o1 <;> cases o2 <;> simp [ResOk] at h
+
+theorem resOk_req_opt {a b : RuleId} {l : List (Option Pair)} {cs : List Pair} (h : ResOk [.req a, .opt b] l cs) :
+    ∃ p o, l = [some p, o] ∧ p.rule = a ∧ p ∈ cs ∧ ∀ q, o = some q → q.rule = b ∧ q ∈ cs := by
+  rcases l with _ | ⟨o1, _ | ⟨o2, _ | ⟨o3, l⟩⟩⟩
+  · simp [ResOk] at h
+  · cases o1 <;> simp [ResOk] at h
+  · cases o1 <;> simp [ResOk] at h
+    rename_i p
+    exact ⟨p, o2, rfl, h.1, h.2.1, h.2.2⟩
+  · cases o1 <;> simp [ResOk] at h
+
+theorem safe_buildValue (ctx : Ctx) : ∀ fuel p, DeepOk gList p → p.rule = R.Value → Safe (buildValue ctx fuel p) := by
+  intro fuel
+  induction fuel with
+  | zero => intro p _ _; simp only [buildValue]; exact Safe.err trivial
+  | succ fuel ih =>
+    intro p hd hr
+    obtain ⟨c, hc, hdc, hoc⟩ := onlyChildOf_of_shape "Value" (hr ▸ acc_Value) hd
+    simp only [buildValue]
+    rw [hoc]
+    simp only [bind, Except.bind]
+    split
+    · rename_i h1
+      exact Safe.bind (safe_buildVariable ctx c hdc h1) fun ⟨n, vp⟩ _ => Safe.ok _
+    · split
+      · exact Safe.ok _
+      · split
+        · exact Safe.ok _
+        · split
+          · rename_i h1
+            exact Safe.bind (safe_buildStringValue ctx c hdc h1) fun ⟨s, sp⟩ _ => Safe.ok _
+          · split
+            · rename_i h1
+              obtain ⟨kw, hkw, _, hok⟩ := onlyChildOf_of_shape "BooleanValue" (h1 ▸ acc_BooleanValue) hdc
+              rw [hok]
+              dsimp only
+              split
+              · exact Safe.ok _
+              · split
+                · exact Safe.ok _
+                · rename_i k1 k2
+                  rcases hkw with h | h
+                  · simp [OC_BooleanValue] at h
+                  · simp [OC_BooleanValue, k1, k2] at h
+            · split
+              · exact Safe.ok _
+              · split
+                · exact Safe.ok _
+                · split
+                  · rename_i h1
+                    obtain ⟨hall, hcs⟩ := allChildren_of_shape (h1 ▸ acc_ListValue) hdc
+                    rw [hall]
+                    dsimp only
+                    refine Safe.bind (Safe.mapM fun v hv => ?_) fun vs _ => Safe.ok _
+                    exact ih v (hcs v hv).2 (hcs v hv).1
+                  · split
+                    · rename_i h1
+                      obtain ⟨hall, hcs⟩ := allChildren_of_shape (h1 ▸ acc_ObjectValue) hdc
+                      rw [hall]
+                      dsimp only
+                      refine Safe.bind (Safe.mapM fun f hf => ?_) fun fs _ => Safe.ok _
+                      obtain ⟨hfr, hfd⟩ := hcs f hf
+                      obtain ⟨hm, hfcs⟩ := deep_parts hfd
+                      have hfr' : f.rule = R.ObjectField := hfr
+                      obtain ⟨l, hl, hres⟩ := parts_of_shape (hfr' ▸ acc_ObjectField) hm
+                      obtain ⟨n, v, rfl, _, hvr, _, hvm⟩ := resOk_req_req hres
+                      try dsimp only
+                      rw [hl]
+                      simp only [get2]
+                      exact Safe.bind (ih v (hfcs v hvm) hvr) fun v' _ => Safe.ok _
+                    · rename_i h1 h2 h3 h4 h5 h6 h7 h8 h9
+                      rcases hc with h | h
+                      · simp [OC_Value] at h
+                      · simp [OC_Value, h1, h2, h3, h4, h5, h6, h7, h8, h9] at h
+
+theorem safe_buildArguments (ctx : Ctx) (fuel : Nat) (p : Pair) (hd : DeepOk gList p) (hr : p.rule = R.Arguments) :
+    Safe (buildArguments ctx fuel p) := by
+  obtain ⟨hall, hcs⟩ := allChildren_of_shape (hr ▸ acc_Arguments) hd
+  unfold buildArguments
+  rw [hall]
+  simp only [bind, Except.bind]
+  refine Safe.mapM fun a ha => ?_
+  obtain ⟨har, had⟩ := hcs a ha
+  obtain ⟨hm, hacs⟩ := deep_parts had
+  have har' : a.rule = R.Argument := har
+  obtain ⟨l, hl, hres⟩ := parts_of_shape (har' ▸ acc_Argument) hm
+  obtain ⟨n, v, rfl, _, hvr, _, hvm⟩ := resOk_req_req hres
+  try dsimp only
+  rw [hl]
+  simp only [get2]
+  exact Safe.bind (safe_buildValue ctx fuel v (hacs v hvm) hvr) fun v' _ => Safe.ok _
+
+theorem safe_buildDirectives (ctx : Ctx) (fuel : Nat) (p : Pair) (hd : DeepOk gList p) (hr : p.rule = R.Directives) :
+    Safe (buildDirectives ctx fuel p) := by
+  obtain ⟨hall, hcs⟩ := allChildren_of_shape (hr ▸ acc_Directives) hd
+  unfold buildDirectives
+  rw [hall]
+  simp only [bind, Except.bind]
+  refine Safe.mapM fun d hdm => ?_
+  obtain ⟨hdr, hdd⟩ := hcs d hdm
+  obtain ⟨hm, hdcs⟩ := deep_parts hdd
+  have hdr' : d.rule = R.Directive := hdr
+  obtain ⟨l, hl, hres⟩ := parts_of_shape (hdr' ▸ acc_Directive) hm
+  obtain ⟨n, o, rfl, _, _, ho⟩ := resOk_req_opt hres
+  try dsimp only
+  rw [hl]
+  try dsimp only
+  cases o with
+  | none => simp only [optArgs]; exact Safe.ok _
+  | some a =>
+    obtain ⟨har, ham⟩ := ho a rfl
+    simp only [optArgs]
+    exact Safe.bind (safe_buildArguments ctx fuel a (hdcs a ham) har) fun args _ => Safe.ok _
+
+end NitroVerif.Shape
